@@ -178,6 +178,10 @@ pub struct Model {
     pub json_body: bool,
     pub form_pairs: Option<Vec<(String, String)>>,
     pub basic: Option<(String, Option<String>)>,
+    /// absolute-form requests (plain http through a proxy): this prefix precedes the path
+    pub absolute_prefix: Option<String>,
+    /// redirect hops after 301/302/303: method and body are not compared (C10)
+    pub relaxed_method_body: bool,
 }
 
 impl Model {
@@ -332,10 +336,18 @@ pub fn judge_request(ctx: &mut Ctx, written: &[u8], m: &Model, what: &str) -> Op
         }
     };
     let descr = |x: &str| format!("{what}: {x}; body kind {}; wire={}", m.body_kind, show(&written[..written.len().min(300)]));
-    if p.method != m.method {
+    if p.method != m.method && !m.relaxed_method_body {
         ctx.violation("method-differs", descr(&format!("method {:?} on the wire, {:?} built", p.method, m.method)));
     }
     // target
+    let mut p = p;
+    if let Some(prefix) = &m.absolute_prefix {
+        if p.target.starts_with(prefix.as_bytes()) {
+            p.target.drain(..prefix.len());
+        } else {
+            ctx.violation("absolute-form-prefix", descr(&format!("absolute-form target does not start with {prefix:?}")));
+        }
+    }
     match request::percent_decode(p.path()) {
         Ok(path) => {
             if path != m.path.as_bytes() {
@@ -358,9 +370,27 @@ pub fn judge_request(ctx: &mut Ctx, written: &[u8], m: &Model, what: &str) -> Op
     for (k, v) in &p.headers {
         got.entry(k.clone()).or_default().push(v.clone());
     }
-    let want = m.expected_headers();
+    let mut want = m.expected_headers();
+    if m.relaxed_method_body {
+        // framing headers must match the body actually written on this hop (the parser has
+        // already checked Content-Length == octets / chunked well-formedness)
+        for k in ["content-length", "transfer-encoding"] {
+            want.remove(k);
+            if let Some(v) = got.get(k) {
+                want.insert(k.to_owned(), v.clone());
+            }
+        }
+    }
     for (k, v) in &want {
         if k == "host" {
+            continue;
+        }
+        if k == "content-type" && v.len() == 1 && v[0] == b"multipart/form-data; boundary=?" {
+            // multipart boundary is random: only the shape is known in advance
+            let ok = got.get(k).map_or(false, |g| g.len() == 1 && g[0].starts_with(b"multipart/form-data; boundary="));
+            if !ok {
+                ctx.violation("header-differs:content-type", descr(&format!("multipart Content-Type is {:?}", got.get(k).map(|vs| vs.iter().map(|v| show(v)).collect::<Vec<_>>()))));
+            }
             continue;
         }
         if got.get(k) != Some(v) {
@@ -393,6 +423,9 @@ pub fn judge_request(ctx: &mut Ctx, written: &[u8], m: &Model, what: &str) -> Op
         ReqFraming::Chunked { .. } => "chunked",
     };
     ctx.count(&format!("framing_{framing_name}"), 1);
+    if m.relaxed_method_body {
+        return Some(p);
+    }
     if m.framing.unwrap_or("none") != framing_name {
         ctx.violation(format!("framing-kind-differs:{}", m.body_kind), descr(&format!("framing on the wire is {framing_name}, the body kind implies {:?}", m.framing)));
     }
